@@ -477,6 +477,13 @@ def _request(session, method, url, timeout=(None, None), **kwargs):
         IncompleteRead,
     ) as error:
         raise ProtocolError(str(error)) from error
+    except requests.exceptions.ConnectionError as error:
+        # Requests wraps a read timeout on the body of a non-streamed response
+        # in its own ConnectionError, so dig out the urllib3 error to get a read retry
+        cause = error.args[0] if error.args else None
+        if isinstance(cause, ReadTimeoutError):
+            raise cause from error
+        raise
 
 
 def _connect_read_tuple(connect_and_or_read):
